@@ -7,9 +7,10 @@
 -/
 import GilVerif.Model.C12
 import GilVerif.Lemmas.Codec
+import GilVerif.Gen.C12
 
 namespace GilVerif.Props.C12
-open GilVerif.Codec GilVerif.Model.C12
+open GilVerif.Codec GilVerif.Model.C12 GilVerif.Gen.C12
 
 /-! ### bit operations (io/bit_operations.hpp) -/
 
@@ -79,6 +80,59 @@ theorem C12_bmp_roundtrip_rgba8 (img : Img Rgba8) (wf : img.WF) (hw : img.w * 4 
 /-- the hypotheses are satisfiable: a 3×2 rgb8 image (width residue 1 mod 4: 3 bytes of padding per row) -/
 example : decodeBmp bgr8 (encodeBmp bgr8 ⟨3, 2, [[⟨1,2,3⟩,⟨4,5,6⟩,⟨7,8,9⟩],[⟨10,11,12⟩,⟨13,14,15⟩,⟨16,17,18⟩]]⟩) Settings.full
     = some ⟨3, 2, [[⟨1,2,3⟩,⟨4,5,6⟩,⟨7,8,9⟩],[⟨10,11,12⟩,⟨13,14,15⟩,⟨16,17,18⟩]]⟩ := by decide
+
+/-! ### the row pitch: computed once in the writer (`spn`) and once in the reader (`_pitch`), both re-translated from the headers on every run -/
+
+private theorem mask_lit : ((-3 - 1 : Int) % 18446744073709551616).toNat = 18446744073709551612 := by decide
+
+private theorem round4 (p : Int) (h0 : 0 ≤ p) (h1 : p < 18446744073709551616) :
+    Int.ofNat (Nat.land (p % 18446744073709551616).toNat ((-3 - 1 : Int) % 18446744073709551616).toNat) = p / 4 * 4 := by
+  rw [mask_lit, Int.emod_eq_of_lt h0 h1, land_mask4 _ (by omega)]
+  simp only [Int.ofNat_eq_natCast]
+  omega
+
+/-- bmp writer: `( view.width() * num_channels + 3 ) & ~3` in size_t arithmetic = the row size rounded up to a multiple of 4 -/
+theorem C12_writer_spn (w nch : Int) (hw : 0 ≤ w) (hn : 0 ≤ nch) (hw63 : w < 9223372036854775808)
+    (hb : w * nch + 3 < 18446744073709551616) : bmp_writer_spn w nch = (w * nch + 3) / 4 * 4 := by
+  have hp : 0 ≤ w * nch := Int.mul_nonneg hw hn
+  unfold bmp_writer_spn
+  have e1 : w % 18446744073709551616 = w := Int.emod_eq_of_lt hw (by omega)
+  have e2 : (w * nch) % 18446744073709551616 = w * nch := Int.emod_eq_of_lt hp (by omega)
+  try simp only [e1, e2]
+  -- `& ~3` form, or an arithmetic rewrite of it (`/ 4 * 4`, …)
+  first
+  | exact round4 (w * nch + 3) (by omega) hb
+  | (generalize w * nch = p at *; omega)
+
+/-- bmp reader (bits per pixel ≥ 8): `_pitch = width * ((bpp + 7) >> 3)` then `(_pitch + 3) & ~3` -/
+theorem C12_reader_pitch (width bpp : Int) (hw : 0 ≤ width) (hbpp : 0 ≤ bpp)
+    (hb : width * ((bpp + 7) / 8) + 3 < 18446744073709551616) :
+    bmp_reader_pitch_round (bmp_reader_pitch_raw width bpp) = (width * ((bpp + 7) / 8) + 3) / 4 * 4 := by
+  have hp : 0 ≤ width * ((bpp + 7) / 8) := Int.mul_nonneg hw (by omega)
+  unfold bmp_reader_pitch_round bmp_reader_pitch_raw
+  have e1 : (width * ((bpp + 7) / 8)) % 18446744073709551616 = width * ((bpp + 7) / 8) := Int.emod_eq_of_lt hp (by omega)
+  try simp only [e1]
+  first
+  | exact round4 _ (by omega) hb
+  | (generalize width * ((bpp + 7) / 8) = p at *; omega)
+
+/-- "row pitch / padding computation mirrored in reader and writer": the reader's pitch for an `nch`-channel 8-bit file IS the
+    writer's row size, for every width -/
+theorem C12_pitch_mirrored (w nch : Int) (hw : 0 ≤ w) (hn : 0 ≤ nch) (hw63 : w < 9223372036854775808)
+    (hb : w * nch + 3 < 18446744073709551616) :
+    bmp_reader_pitch_round (bmp_reader_pitch_raw w (nch * 8)) = bmp_writer_spn w nch := by
+  have e : (nch * 8 + 7) / 8 = nch := by omega
+  rw [C12_writer_spn w nch hw hn hw63 hb, C12_reader_pitch w (nch * 8) hw (by omega) (by rw [e]; exact hb), e]
+
+/-- the hand-written model's `bmpSpn` (used by `encodeBmp`, and equal to `bmpPitch` in `C12_bmp_roundtrip`) is the generated kernel -/
+theorem C12_pitch_model (w nch : Nat) (hw63 : (w : Int) < 9223372036854775808) (hb : (w : Int) * nch + 3 < 18446744073709551616) :
+    (bmpSpn w nch : Int) = bmp_writer_spn w nch := by
+  rw [C12_writer_spn w nch (by omega) (by omega) hw63 hb]
+  unfold bmpSpn
+  push_cast
+  rfl
+
+example : bmp_writer_spn 3 3 = 12 ∧ bmp_reader_pitch_round (bmp_reader_pitch_raw 3 24) = 12 := by decide
 
 /-! ### TARGA -/
 
